@@ -77,10 +77,17 @@ def scanString (p : P) (g : Grammar) (root : Nat) (s : List Char) (maxMatches : 
   | some nd => scanLoop p nd root s alwaysSkip overlap (2 * s.length + 4) 0 maxMatches []
 
 /-- `_flatten` + `str` of the token list as transform_string uses it (1363-1373) -/
+def Tok.truthy : Tok → Bool
+  | .s v => !v.isEmpty
+  | .n v => v != 0
+  | .g ts => !ts.isEmpty
+
+/-- `out = [o for o in out if o]` drops falsy top-level items (empty strings/lists, the integer 0) -/
 def transformPieces (s : List Char) : List Match → Nat → List Char
   | [], lastE => s.drop lastE
   | m :: ms, lastE =>
-    (if m.start > lastE then slice s lastE m.start else []) ++ strsL m.toks ++ transformPieces s ms m.stop
+    (if m.start > lastE then slice s lastE m.start else []) ++ strsL (m.toks.filter Tok.truthy)
+      ++ transformPieces s ms m.stop
 
 /-- transform_string (1345-1380) on a completed scan -/
 def transformString (s : List Char) (r : ScanR) : Sum Out (List Char) :=
